@@ -37,6 +37,7 @@ struct Profile {
   bool buggify = true;
   bool child_output = true;
   bool hostile_output = false;
+  bool subset_then_touch = false;   // history macro: rebuild a restat statement alone, touch its source, build all
   bool check_convergence = true;
   bool coarse_clock_allowed = true;
   bool twin_deps = false, twin_dyndep = false;   // C10 / C11 metamorphic mode
